@@ -11,7 +11,7 @@ using namespace vh;
 namespace vh {
 // saves `nif` to `path`; with trace=true also writes `<path>.trace`: one line per block
 //   <blockIndex> <payloadSize> R:<offsets,> S:<offsets,>    (offsets of block-reference / string-index fields in the payload)
-int saveFile(NifFile& nif, const std::string& path, bool raw, bool trace) {
+int saveFile(NifFile& nif, const std::string& path, bool raw, bool trace, bool full = false) {
 	NifSaveOptions so;
 	so.optimize = !raw;
 	so.sortBlocks = !raw;
@@ -32,6 +32,12 @@ int saveFile(NifFile& nif, const std::string& path, bool raw, bool trace) {
 	for (auto& e : tr.events)
 		if (e.tag != '-')
 			t << e.tag << " " << e.offset << " " << e.size << "\n";
+	if (full) {
+		// every primitive transfer: <kind char> <offset> <size> (for the schema validation of C01)
+		std::ofstream tf(path + ".tracefull");
+		for (auto& e : tr.events)
+			tf << e.kind << " " << e.offset << " " << e.size << "\n";
+	}
 	return 0;
 }
 } // namespace vh
@@ -66,8 +72,9 @@ std::string fs(const Args& a) {
 			}
 			else if (f[0] == "save") {
 				bool raw = f[2] == "raw";
-				bool trace = f.size() > 3 && f[3] == "trace";
-				int rc = saveFile(nif, f[1], raw, trace);
+				bool full = f.size() > 3 && f[3] == "tracefull";
+				bool trace = full || (f.size() > 3 && f[3] == "trace");
+				int rc = saveFile(nif, f[1], raw, trace, full);
 				st = rc == 0 ? "ok" : "save-rc" + std::to_string(rc);
 			}
 			else if (f[0] == "loosechain") {
